@@ -23,6 +23,8 @@ Require Import Cirbo.Proofs.WFBase Cirbo.Proofs.WFEmplace Cirbo.Proofs.WFStep Ci
 Require Import Cirbo.Generated.Converters Cirbo.Proofs.WFBench Cirbo.Proofs.ConvertersGen Cirbo.Proofs.ConvertersGenWF.
 Require Import Cirbo.Model.Eval Cirbo.Model.TseytinAlg.
 Require Import Cirbo.Generated.CircuitCore Cirbo.Proofs.CircuitCoreGen Cirbo.Proofs.CircuitCoreGen2.
+Require Import Cirbo.Model.Traverse Cirbo.Generated.CircuitAlgos Cirbo.Proofs.CircuitAlgosGen
+        Cirbo.Proofs.CircuitAlgosGen2 Cirbo.Proofs.CircuitAlgosGen3 Cirbo.Proofs.CircuitAlgosGenSum.
 
 Theorem C02_empty_wf : WF empty_circuit /\ inputs_nullary empty_circuit.
 Proof. exact Inv_empty. Qed.
@@ -123,6 +125,99 @@ Theorem C02_core_removal_regenerated_wf : forall c,
   WF c ->
   (forall l, gen_remove_gate c l = remove_gate c l) /\ (forall b, gen_remove_block c b = remove_block c b).
 Proof. exact core_removal_regenerated_wf. Qed.
+
+(* third group: the ALGORITHMIC methods.  Translator T10 (translator/t10_circuit_algos.py; grammar of T9 extended
+   by while loops on explicit fuel, generators, local dicts / sets, a second circuit argument, builders of a new
+   circuit, lambdas selected by a flag, comprehensions that can raise) regenerates top_sort, connect_circuit and
+   its five wrappers, __copy__, Block.into_circuit, evaluate_full_circuit, evaluate_circuit,
+   evaluate_circuit_outputs, evaluate, evaluate_at, get_truth_table (and the properties size, input_size) from
+   circuit.py as gen_<name> (Generated/CircuitAlgos.v) on every check.
+   - fuel: every `while` loop of the source is a Fixpoint on explicit fuel and the fuel is a parameter of the
+     generated function; the statements instantiate it with the fuel the model uses (S (size c) for top_sort,
+     eval_fuel for evaluate_circuit);
+   - keys_ok c := NoDup (dkeys (gates c)): the gate map has no repeated key.  True of every Python dict and part
+     of WF; necessary for the association-list representation (C02_algorithms_corners, first part): top_sort
+     builds its indegree dict by a dict comprehension over the gate map, the model by a map;
+   - top_sort is a generator of Gate objects: gen_top_sort returns the (label, gate) pairs it yields; their
+     labels are the model's list and every pair is an entry of the gate map.  A consumer loop
+     (`for g in self.top_sort(...)`) runs over the complete list, as in the model;
+   - gates_for_block of connect_circuit is a Python set: the generated code keeps it as a duplicate-free list
+     and `list(gates_for_block)` lists its elements in gate-map order followed by the elements that are not
+     gates of self; the equality with the model (which canonicalises `blk`) includes the proof that every
+     element is a gate of self;
+   - evaluate_circuit: the source decides "all operands are assigned" by `cur_gate.label == queue_[-1]`, the
+     model by "nothing was pushed".  They differ only when a gate is its own unassigned operand: the source then
+     raises KeyError (or GateTypeNoOperatorError) where the model pushes until it runs out of fuel.
+     agree c g h := g = h \/ (h = Err OutOfFuel /\ (exists e, g = Err e) /\ some gate of c is its own operand)
+     (C02_algorithms_agree_spec); it implies equal normal returns and equal is_ok, and equality whenever no gate
+     is its own operand (C02_algorithms_agree_consequences), in particular on well-formed circuits
+     (C02_evaluators_regenerated_wf).  The corner is real (C02_algorithms_corners, second part);
+   - evaluate_at: output_index is a Python int, the model takes a natural number: stated for Z.of_nat i. *)
+Theorem C02_algorithms_regenerated :
+  (forall c, gen_size c = size c) /\
+  (forall c, gen_input_size c = length (inputs c)) /\
+  (forall c inv, keys_ok c -> (do r <- gen_top_sort (S (size c)) c inv; Ok (map fst r)) = top_sort inv c) /\
+  (forall c inv fuel r, gen_top_sort fuel c inv = Ok r -> Forall (fun p => get_gate c (fst p) = Ok (snd p)) r) /\
+  (forall c other tc oc right name ap, keys_ok other ->
+     gen_connect_circuit (S (size other)) c other tc oc right name ap = connect_circuit c other tc oc right name ap) /\
+  (forall c other tc name ap, keys_ok other ->
+     gen_connect_left (S (size other)) c other tc name ap = connect_left c other tc name ap) /\
+  (forall c other oc name ap, keys_ok other ->
+     gen_connect_right (S (size other)) c other oc name ap = connect_right c other oc name ap) /\
+  (forall c other name ap, keys_ok other ->
+     gen_connect_inputs (S (size other)) c other name ap = connect_inputs c other name ap) /\
+  (forall c other tc oc right name ap, keys_ok other ->
+     gen_extend_circuit (S (size other)) c other tc oc right name ap = extend_circuit c other tc oc right name ap) /\
+  (forall c other name ap, keys_ok other ->
+     gen_add_circuit (S (size other)) c other name ap = add_circuit c other name ap) /\
+  (forall c, keys_ok c -> gen___copy__ (S (size c)) c = copy_circuit c) /\
+  (forall b c, gen_Block_into_circuit b c = block_into_circuit c b) /\
+  (forall c a, keys_ok c -> gen_evaluate_full_circuit (S (size c)) c a = evaluate_full_circuit c a) /\
+  (forall c a outs fuel, agree c (gen_evaluate_circuit fuel c a outs) (evaluate_circuit_fuel fuel c a outs)) /\
+  (forall c a outs,
+     agree c (gen_evaluate_circuit (eval_fuel c (match outs with Some o => o | None => outputs c end)) c a outs)
+           (evaluate_circuit c a outs)) /\
+  (forall c a, agree c (gen_evaluate_circuit_outputs (eval_fuel c (outputs c)) c a) (evaluate_circuit_outputs c a)) /\
+  (forall c vals, agree c (gen_evaluate (eval_fuel c (outputs c)) c vals) (evaluate c vals)) /\
+  (forall c vals i,
+     agree c (gen_evaluate_at (2 * (1 + sum_arity c) + 1) c vals (Z.of_nat i)) (evaluate_at c vals i)) /\
+  (forall c, agree c (gen_get_truth_table (eval_fuel c (outputs c)) c) (get_truth_table c)).
+Proof. exact algorithms_regenerated. Qed.
+
+Theorem C02_algorithms_agree_spec : forall A (c : circuit) (g h : res A),
+  agree c g h <->
+  (g = h \/ (h = Err OutOfFuel /\ (exists e, g = Err e) /\
+             exists l gt, dget (gates c) l = Some gt /\ In l (gops gt))).
+Proof. exact agree_spec. Qed.
+
+Theorem C02_algorithms_agree_consequences : forall A (c : circuit) (g h : res A), agree c g h ->
+  (forall x, g = Ok x <-> h = Ok x) /\ is_ok g = is_ok h /\
+  (h <> Err OutOfFuel -> g = h) /\
+  ((forall l gt, dget (gates c) l = Some gt -> ~ In l (gops gt)) -> g = h).
+Proof. exact agree_consequences. Qed.
+
+(* on a well-formed circuit (unique keys, acyclic) every regenerated evaluator EQUALS the model *)
+Theorem C02_evaluators_regenerated_wf : forall c, WF c ->
+  (forall a, gen_evaluate_full_circuit (S (size c)) c a = evaluate_full_circuit c a) /\
+  (forall a outs,
+     gen_evaluate_circuit (eval_fuel c (match outs with Some o => o | None => outputs c end)) c a outs
+     = evaluate_circuit c a outs) /\
+  (forall a, gen_evaluate_circuit_outputs (eval_fuel c (outputs c)) c a = evaluate_circuit_outputs c a) /\
+  (forall vals, gen_evaluate (eval_fuel c (outputs c)) c vals = evaluate c vals) /\
+  (forall vals i, gen_evaluate_at (2 * (1 + sum_arity c) + 1) c vals (Z.of_nat i) = evaluate_at c vals i) /\
+  gen_get_truth_table (eval_fuel c (outputs c)) c = get_truth_table c.
+Proof. exact evaluators_regenerated_wf. Qed.
+
+(* keys_ok follows from the invariant of C02_step_wf *)
+Theorem C02_algorithms_keys_ok_wf : forall c, WF c -> keys_ok c.
+Proof. exact WF_keys_ok. Qed.
+
+(* both side conditions are necessary *)
+Theorem C02_algorithms_corners :
+  ((do r <- gen_top_sort 3 dup_keys_circuit true; Ok (map fst r)) <> top_sort true dup_keys_circuit) /\
+  (gen_evaluate_circuit (eval_fuel self_loop_circuit ["g"]) self_loop_circuit [] None = Err PyKeyError /\
+   evaluate_circuit self_loop_circuit [] None = Err OutOfFuel).
+Proof. exact algorithms_corners. Qed.
 
 (* non-vacuity: a history through 11 kinds of calls (a left connection of another circuit, the
    bench conversion of an LT gate, block removal, ...) whose side conditions hold, which runs to
